@@ -1,7 +1,7 @@
 /-
 Packet assembly of `flexstack.geonet.router.Router` (origination of beacon, SHB, GBC/GAC, GUC, LS request,
 LS reply; re-encoding by the TSB/GBC/GAC/GUC/LS forwarders) and of `flexstack.btp.router.Router`
-(BTP-A / BTP-B header in front of the payload).  Mirrors the code after the C02 `fix:` diffs; the two
+(BTP-A / BTP-B header in front of the payload; `btpGnRequest`: the GN-DATA.request built from a BTP-Data.request).  Mirrors the code after the C02 `fix:` diffs; the two
 deviations that the repository's own tests pin are carried as Boolean variants (known findings):
   C02-KF1  `CommonHeader.initialize_beacon` writes `itsGnIsMobile.value` (bit 7 = LSB) instead of `<< 7`
   C02-KF2  the source operations write version 1 instead of `itsGnProtocolVersion`
